@@ -219,6 +219,8 @@ def check(run):
     R.rule('C16.forward', 'connect() called once per attempt with poll, ping_rate, ping_timeout forwarded to the '
                           'same-named parameters', 3)
     R.rule('C16.noescape', 'no exception class can escape the connection event generator (it would end persist())', 1)
+    from .common import exception_text_total as _ett
+    _ett(R, 'C16.noescape')        # '{}'.format(error) in the failure handlers cannot itself fail
 
     f = R.func(FN)
     g = R.cfg(FN)
